@@ -11,6 +11,8 @@ corpus).  Each takes module source text and returns new source text.
   unelse       : `if c: <leaves> else: B` -> `if c: <leaves>` ; B
   addelse      : `if c: <leaves>` ; rest  -> `if c: <leaves> else: rest`
   condtemp     : `if <cond>:` -> `_c = <cond>` ; `if _c:`
+  argtemp      : `o.m(<call/arith>)` -> `_a = <..>` ; `o.m(_a)`
+  augexpand    : `n += 1` -> `n = n + 1` (names, int literals)
 """
 
 import ast
@@ -294,5 +296,56 @@ def condtemp(src):
     return ast.unparse(tree) + "\n"
 
 
+def argtemp(src):
+    """`obj.meth(<call or arithmetic>)` as a statement ->
+    `_a = <..>` ; `obj.meth(_a)` (first such positional argument)."""
+    class K:
+        k = 0
+
+    def fn(stmts):
+        out = []
+        for st in stmts:
+            if isinstance(st, ast.Expr) and isinstance(st.value, ast.Call) and \
+                    isinstance(st.value.func, ast.Attribute) and \
+                    isinstance(st.value.func.value, (ast.Name, ast.Attribute)) and \
+                    not any(isinstance(x, (ast.Yield, ast.Await, ast.NamedExpr, ast.Lambda))
+                            for x in ast.walk(st.value)):
+                for i, a in enumerate(st.value.args):
+                    if isinstance(a, (ast.Call, ast.BinOp)) and \
+                            all(not isinstance(b, ast.Starred) for b in st.value.args[:i + 1]) \
+                            and all(isinstance(b, (ast.Name, ast.Constant))
+                                    for b in st.value.args[:i]):
+                        K.k += 1
+                        nm = "_arg%d" % K.k
+                        out.append(ast.Assign(targets=[ast.Name(id=nm, ctx=ast.Store())],
+                                              value=a))
+                        st.value.args[i] = ast.Name(id=nm, ctx=ast.Load())
+                        break
+            out.append(st)
+        return out
+    tree = ast.parse(src)
+    for fnode in [n for n in ast.walk(tree) if isinstance(n, ast.FunctionDef)]:
+        _map_blocks(fnode, fn)
+    ast.fix_missing_locations(tree)
+    return ast.unparse(tree) + "\n"
+
+
+def augexpand(src):
+    """`n += <int literal>` -> `n = n + <int literal>` (plain names only)."""
+    class F(ast.NodeTransformer):
+        def visit_AugAssign(self, node):
+            if isinstance(node.target, ast.Name) and isinstance(node.op, (ast.Add, ast.Sub)) \
+                    and isinstance(node.value, ast.Constant) and \
+                    type(node.value.value) is int:
+                return ast.Assign(
+                    targets=[ast.Name(id=node.target.id, ctx=ast.Store())],
+                    value=ast.BinOp(left=ast.Name(id=node.target.id, ctx=ast.Load()),
+                                    op=node.op, right=node.value))
+            return node
+    tree = F().visit(ast.parse(src))
+    ast.fix_missing_locations(tree)
+    return ast.unparse(tree) + "\n"
+
+
 ALL = {"unparse": unparse, "rename": rename, "noop": noop, "flipif": flipif,
-       "flipcmp": flipcmp, "temps": temps, "unelse": unelse, "addelse": addelse, "condtemp": condtemp}
+       "flipcmp": flipcmp, "temps": temps, "unelse": unelse, "addelse": addelse, "condtemp": condtemp, "argtemp": argtemp, "augexpand": augexpand}
